@@ -303,3 +303,30 @@ prop("C07",
      level_note="Trusted: harness/mredis, the gate scheduler, the reference filter predicates. Chunked hashes under parallel>1 are not generated here (cost); their route is covered single-connection in C02.",
      assumptions=["keys are unique per database (and across databases when target.db is fixed): an RDB cannot hold a key twice",
                   "a key never carries both IDLE and FREQ hints (Redis saves one or the other)"])
+
+INCR_RULE = ("source command streams of up to 25 commands drawn from a grammar: SELECT (dbs 0,1,2,5,11, repeated), SET/MSET/APPEND/INCR/RPUSH/HSET/DEL/UNLINK/"
+             "SUNIONSTORE/BITOP, opaque commands (XADD, PFADD, ZUNIONSTORE, ...), PING, MULTI..EXEC blocks (also empty), PUBLISH __sentinel__:hello, EVAL/"
+             "EVALSHA/SCRIPT, OPINFO, command names in any letter case, binary arguments, keep-alive newlines between commands; keys that are prefixes "
+             "of / equal to / extend the filter prefixes or carry the checkpoint prefix; value types kept consistent per key name (a master only "
+             "propagates commands that succeeded); delivered to the real DbSyncer.syncCommand through a pipe in generated fragments with pauses of "
+             "0/20/120/480/520/700 ms (arrival before, on and after the 500 ms flush tick); configuration: db white/blacklist, key white/blacklist, "
+             "filter.lua, target.db in {-1,0,2,5}, resume on/off (on => target.db -1; resumed streams start inside a passing db), sender.count in "
+             "{1,2,3,7,1024}, sender.size in {1,64,65535,100MiB}; one rapid case = one configuration and a batch of 8-24 streams run concurrently, each "
+             "against its own model target over loopback TCP. ")
+
+prop("C03",
+     title="Incremental sync forwards the filtered command stream in order, exactly once",
+     timing=True,
+     quick=[{"re": "^TestC03$", "checks": 15, "shards": 3, "timeout": 600}],
+     thorough=[{"re": "^TestC03$", "checks": 1400, "shards": 14, "timeout": 1700}],
+     rule=INCR_RULE + "Oracle: reference model written from the statement (source-selected db tracking, db filter, OPINFO/lua/sentinel-hello/MULTI/EXEC never "
+          "applied, reference key-filter rewrite from C13, destination db = source db or target.db) => expected sequence of (db, command, args); observed = "
+          "the model target's command log in execution order with the db each command ran in (tool-own SELECT/MULTI/EXEC/checkpoint HSET and PING left out); "
+          "sequences must be equal (order, exactly once, byte-identical args, right db) and complete within 5 s of the last source byte while the stream "
+          "stays open. Non-trivial: >=2 SELECTs, >=1 filtered command, >=2 separate flushes. Distinct = hash of (configuration, stream, fragmentation).",
+     technique="property-based testing (rapid): generated command streams x configurations x arrival timings against a reference model of the filtered stream (model-based oracle), batched instances",
+     level_text="The real four-goroutine pipeline runs unmodified against a model target; the reference model is independent of the repository's tables. Parser/sender/ticker interleavings are sampled through generated arrival times, not enumerated.",
+     level_note="Trusted: harness/mredis, ref.KeySpecs, the reference walker in incr_test.go. PING may or may not be forwarded (left out of the comparison). Bounded-response (5 s) stands in for 'within bounded time'.",
+     assumptions=["a master only propagates commands that succeeded (streams are type-consistent)",
+                  "a resumed stream starts in a database that passes the db filter (checkpoints are only written there)",
+                  "SELECT does not occur inside a source MULTI block"])
